@@ -449,6 +449,8 @@ def h_exp(ctx, eqn, a):
     def f(x):
         if x.is_const() and x.const_value() == 0:
             return P.ONE_V
+        if P.is_inf(x):
+            return P.pos_inf()
         st = x.p.single_term()
         if st is not None:
             m, c = st
@@ -467,6 +469,8 @@ def h_lgamma(ctx, eqn, a):
     def f(x):
         if x.is_const():
             c = x.const_value()
+            if c.denominator == 1 and c <= 0:
+                return P.pos_inf()  # Gamma has poles at the non-positive integers: lgamma = +inf
             if c.denominator == 1 and c >= 1:
                 k = int(c)
                 if k <= 2:
@@ -732,7 +736,14 @@ def _index_leaf(x, k):
 
 def h_scan(ctx, eqn, *ins):
     p = eqn.params
-    nc, ncar = p["num_consts"], p["num_carry"]
+    if "num_consts" in p:
+        nc, ncar = p["num_consts"], p["num_carry"]
+    else:  # newer jax: flat-tree descriptors (consts, carry, xs) / (carry, ys)
+        ft = p["ft_in"]
+        if hasattr(ft, "elts"):
+            nc, ncar = len(ft.elts[0]), len(ft.elts[1])
+        else:
+            nc, ncar = len(ft[0]), len(ft[1])
     length, reverse = p["length"], p["reverse"]
     j, c = _closed(p["jaxpr"])
     consts = list(ins[:nc])
